@@ -369,6 +369,55 @@ pub fn sites(tier: Tier) -> Vec<Site> {
                 }
             }));
     }
+    // (g) no memory between calls: an encode that is REFUSED part-way (an element deep in a list is out of
+    // range, a late field does not fit) followed on the same thread by the encode of a shorter packet of any
+    // kind - the second frame is that packet's frame and nothing else
+    {
+        use insim::insim::{Hcp, Isi, Plh};
+        let mut refused: Vec<(String, Packet)> = vec![];
+        {
+            // a PLH whose last handicap is out of range
+            let mut hs: Vec<insim::insim::PlayerHandicap> = (0..20u8).map(|k| insim::insim::PlayerHandicap { plid: insim::identifiers::PlayerId(k + 1), h_mass: 10, h_tres: 5, ..Default::default() }).collect();
+            if let Some(l) = hs.last_mut() { l.h_mass = 250; }
+            refused.push(("PLH x20, last H_Mass 250".into(), Packet::Plh(Plh { hcaps: hs, ..Default::default() })));
+        }
+        {
+            let mut p = Hcp::default();
+            if let Some(l) = p.info.last_mut() { l.h_tres = 200; }
+            refused.push(("HCP, last H_TRes 200".into(), Packet::Hcp(p)));
+        }
+        refused.push(("ISI, interval 70 s".into(), Packet::Isi(Isi { interval: std::time::Duration::from_secs(70), iname: "x".repeat(16), admin: "y".repeat(16), ..Default::default() })));
+        let refused = Arc::new(refused);
+        let mut followers: Vec<(String, bool, Packet, Vec<u8>)> = vec![];
+        for k in gen.kinds.iter() {
+            for c in [true, false] {
+                let vals = crate::gen::baseline(k, 1);
+                let Some(f) = spec::ref_encode(k, &vals, c) else { continue };
+                let codec = Codec::new(mode_of(c));
+                let mut b = BytesMut::from(&f[..]);
+                let Ok(Some(p)) = codec.decode(&mut b) else { continue };
+                let Ok(Ok(own)) = guard(|| codec.encode(&p)) else { continue };
+                followers.push((k.name.clone(), c, p, own.to_vec()));
+            }
+        }
+        let followers = Arc::new(followers);
+        let n = (refused.len() * followers.len()) as u64;
+        sites.push(Site::new("encode-after-refusal", n,
+            "3 packets whose encoding is refused part-way (PLH / HCP with the last handicap out of range, ISI with an interval beyond 16 bits) x every kind's B1 packet (both modes) encoded right afterwards on the same thread: the frame is the one the packet has on its own",
+            move |i, acc| {
+                acc.eval();
+                let (rname, r) = &refused[(i as usize) / followers.len()];
+                let (kname, c, p, own) = &followers[(i as usize) % followers.len()];
+                let codec = Codec::new(mode_of(*c));
+                let first = guard(|| codec.encode(r).map(|b| b.len()));
+                let second = guard(|| codec.encode(p).map(|b| b.to_vec()));
+                let replay = json!({"site": "encode-after-refusal", "index": i, "refused": rname, "then": kname});
+                match second {
+                    Ok(Ok(b)) if b == *own => { acc.class(if matches!(first, Ok(Ok(_))) { "after-an-accepted-packet" } else { "after-a-refused-packet" }); acc.nontrivial(); },
+                    other => acc.violate(i, format!("C03|{kname}|frame-depends-on-the-previous-encode"), format!("{kname} encoded right after {rname} ({}): {} ; on its own {}", match &first { Ok(Ok(n)) => format!("accepted, {n} bytes"), Ok(Err(e)) => format!("refused: {}", e.to_string().chars().take(40).collect::<String>()), Err(_) => "panicked".into() }, match other { Ok(Ok(b)) => hex(&b[..b.len().min(32)]), Ok(Err(e)) => e.to_string(), Err(pn) => pn }, hex(&own[..own.len().min(32)])), replay),
+                }
+            }));
+    }
     let _ = Packet::default();
     sites
 }
